@@ -32,6 +32,7 @@ var siteTemplate = []struct {
 	{"...", 'd'}, {".../t.txt", 'f'}, {"..a", 'f'}, {".htaccess", 'f'}, {"noindex", 'd'}, {"noindex/n.txt", 'f'},
 	{"idx", 'd'}, {"idx/index.html", 'd'}, {"idx/index.html/inner.txt", 'f'}, {"denied", 'p'}, {"broken", 'e'},
 	{"a.txt.gz", 'f'}, {"a.txt.br", 'd'}, {"a.txt.zst", 'f'}, {"index.html.gz", 'f'}, {"secret.txt.gz", 'f'}, {"sub/b.txt.zst", 'f'},
+	{"a.txt.etag", 'f'}, {"index.html.etag", 'f'}, {"a.txt.md5", 'd'}, {"secret.txt.etag", 'f'}, {"a.txt.gz.etag", 'f'}, {"sub/b.txt.md5", 'f'},
 	{"secret", 'd'}, {"secret/s.txt", 'f'}, {"w", 'f'},
 }
 
@@ -143,7 +144,7 @@ func (w *world) treeField() string {
 }
 
 var hideNames = []string{"secret.txt", ".git", "hidden", "index.html", "sub", ".*", "*.txt", "s?cret.txt", "[r-t]ecret.txt",
-	"secret*", "deep", "w", "site", "...", "secret", "*", "b.txt", "[^a]*", "é*", "?.txt", "a?b.txt", "x\\*y", "[", "a\\", "[a-", "**", "[]a]", "*.gz", "*.gz", "a.txt.zst"}
+	"secret*", "deep", "w", "site", "...", "secret", "*", "b.txt", "[^a]*", "é*", "?.txt", "a?b.txt", "x\\*y", "[", "a\\", "[a-", "**", "[]a]", "*.gz", "*.gz", "a.txt.zst", "*.etag", "*.etag", "*.md5"}
 
 func genHide(rng *core.Rand, w *world) []string {
 	n := rng.Intn(4)
@@ -345,6 +346,22 @@ func genServe(rng *core.Rand) string {
 			via = "s"
 		}
 		via += "d"
+	}
+	if rng.Chance(1, 5) {
+		// etag_file_extensions (needs every optional field before it)
+		if via == "" {
+			via = "s"
+		}
+		q := ""
+		if withQuery {
+			q = rng.Pick(queries)
+		}
+		ee := [][]string{{".etag"}, {".md5", ".etag"}, {".etag", ".md5"}, {".none", ".etag"}, {".md5"}}[rng.Intn(5)]
+		if rng.Chance(1, 2) && !sidecars {
+			p2 := rng.Pick([]string{"/a.txt", "/index.html", "/secret.txt", "/sub/b.txt"})
+			line = strings.Replace(line, " "+core.Hex(p)+" "+core.Hex(orig)+" ", " "+core.Hex(p2)+" "+core.Hex(p2)+" ", 1)
+		}
+		return line + " " + preF + " " + encF + " " + core.Hex(q) + " " + via + " " + showList(ee)
 	}
 	switch {
 	case via != "":
